@@ -2,6 +2,8 @@
 
 from __future__ import annotations
 
+from fractions import Fraction
+
 import common
 from common import Rng, cbool, clist, cnat, cz
 from framework import TranslateError  # noqa: F401
@@ -22,18 +24,28 @@ TRUSTED = [
     "model inside Coq; output arrays, warning counts and the number of draws consumed must agree exactly",
     "generator contract: rng.choice(N, size=k, replace=True) returns k arbitrary elements of 0..N-1 (theorems quantify over all draw streams); "
     "PCG64, pandas Index.get_indexer_for on uint64 keys and numpy mask indexing are exercised, not verified",
-    "the 'plentiful negatives' clause is proved as the exact event (failure iff all attempts+1 draws of the row hit observed columns); the "
-    "probability of that event under the real generator is not a theorem",
+    "the 'plentiful negatives' clause is proved as the exact event (failure iff all attempts+1 draws of the row hit observed columns) and as a count "
+    "over all draw streams (plentiful_failure_count: hits^(att+1) of N^(att+1) streams fail, at most a 2^-(att+1) fraction when half of the draws "
+    "miss); that PCG64 behaves like an ideal source is NOT a theorem: the oracle flags a warning / observed cell on plentiful rows only when the "
+    "ideal-source probability of the event (union bound over the cells) is <= 1e-9",
+    "for rng= given as a seed, SeedSequence, list of ints, plain Generator, BitGenerator or None-with-global the draws cannot be recorded: those calls "
+    "are judged by the Python oracle only (shape, range, verified-or-warned, plentiful clause, reproducibility); that ONE generator serves the initial "
+    "draw and every retry level is a shape condition of the extractor (the model threads one stream)",
 ]
 ASSUMPTIONS = [
     "row numbers are valid (0 <= r < number of rows < 2^31) and the matrix has fewer than 2^31 columns (int32 numbers)",
     "the relationship matrix is the one built by the dataset builder (sorted, no repeated pair); this is re-observed on every case",
 ]
-RULE = ("structured generator: 0-7 rows x 0-7 columns, density from empty to fully dense with planted dense and empty rows and unused columns, "
-        "1-4 sample_negatives calls on ONE matrix object (half of the later calls repeat the previous request), row arrays with repeats (0-10 entries), both weightings (and the alias 'popularity'), n in {None,0,1,2,3,4}, verify on/off, retry budget "
-        "-1..5, draws from PCG64 (recorded) or scripted streams biased towards observed columns; non-trivial = some call has verification on, at least one "
-        "resampling round happened (more draws than cells) and at least one requested row has both observed and unobserved columns; distinct = "
-        "by hash of the case")
+RULE = ("structured generator: 7/8 small matrices (0-7 rows x 0-7 columns, density from empty to fully dense with planted dense and empty rows and "
+        "unused columns, row arrays with repeats of 0-10 entries, n in {None,0,1,2,3,4}, retry budget -1..5) and 1/8 'plentiful' matrices (3-16 rows x "
+        "12-40 columns, every row observes at most half of the columns bar one planted dense row, request arrays of 8-100 rows with repeats, n in "
+        "{None,1,2,3}, budgets 6..44 chosen so that the ideal failure probability is mostly below 1e-9); 1-4 sample_negatives calls on ONE matrix object "
+        "(half of the later calls repeat the previous request), both weightings (and the alias 'popularity'), verify on/off; the FORM of rng= is generated "
+        "per call: recording Generator over PCG64, scripted Generator biased towards observed columns, int seed, SeedSequence, list-of-ints seed, plain "
+        "Generator, BitGenerator, None with a global generator set (plain or recording); recorded forms are replayed through the Coq model, the others are "
+        "judged by the oracle (incl. the quantified plentiful clause) and run twice for reproducibility; non-trivial = some call has verification on, at "
+        "least one requested row has both observed and unobserved columns, and either a resampling round happened (recorded forms: more draws than cells) "
+        "or the quantified plentiful clause was judged on such a row (unrecorded forms); distinct = by hash of the case")
 SHARD = 150
 
 
@@ -50,7 +62,67 @@ def translate():
 # generator
 # ---------------------------------------------------------------------------------------------
 
+# the FORM of the rng= argument of a call.  Recorded forms are replayed through the Coq model; the others are judged by the
+# oracle alone (shape, range, verified-or-warned, the quantified "plentiful" clause, reproducibility).
+RECORDED = ("pcg", "scripted", "none-global-rec")
+REPEATABLE = ("int", "seedseq", "intlist", "generator", "bitgen", "none-global")
+HONEST = ("pcg", "none-global-rec") + REPEATABLE        # draws come from PCG64, not from a stream scripted by the harness
+MODES_SMALL = [("pcg", 4), ("scripted", 6), ("int", 2), ("seedseq", 1), ("intlist", 1), ("generator", 1), ("bitgen", 1),
+               ("none-global", 1), ("none-global-rec", 1)]
+MODES_PLENTY = [("pcg", 3), ("scripted", 1), ("int", 3), ("seedseq", 2), ("intlist", 2), ("generator", 1), ("bitgen", 1),
+                ("none-global", 1), ("none-global-rec", 1)]
+# a warning / an observed cell on rows with plentiful unobserved columns is a violation when the probability of that event under
+# an ideal source (theorem plentiful_failure_count: (hits/N)^(attempts+1) per cell, summed over the cells) is at most this
+PLENTY_EPS = Fraction(1, 10 ** 9)
+
+
+def gen_plentiful(rng):
+    """larger matrices whose rows leave at least half of the columns free (a few planted dense rows), long request arrays,
+    budgets from the default 10 upwards: the clause 'plentiful rows receive true negatives without any warning'"""
+    nu = rng.randint(3, 16)
+    ni = rng.choice([12, 16, 24, 32, 40])
+    base = rng.weighted([((1, 16), 2), ((1, 8), 3), ((1, 4), 3), ((3, 8), 2), ((1, 2), 2)])
+    skew = rng.chance(1, 2)
+    pool = list(range(ni)) if not skew else rng.shuffle(list(range(ni)))[: max(2, (ni * 5) // 8)]
+    dense_row = rng.below(nu) if rng.chance(1, 6) else None
+    pairs = []
+    for u in range(nu):
+        if u == dense_row:
+            k = ni - rng.below(3)
+            cols = rng.sample(list(range(ni)), k)
+        elif rng.chance(1, 10):
+            cols = []
+        else:
+            k = max(0, min(len(pool), (base[0] * ni) // base[1] - rng.below(3)))
+            cols = rng.sample(pool, k)
+        pairs += [[u, c] for c in cols]
+    pairs = rng.shuffle(pairs)
+    budgets = {(1, 16): [(10, 3), (6, 1), (12, 1)], (1, 8): [(10, 1), (12, 2), (16, 2)], (1, 4): [(10, 1), (20, 3), (24, 1)],
+               (3, 8): [(10, 1), (28, 3), (32, 1)], (1, 2): [(10, 1), (40, 3), (44, 1)]}[base]
+
+    def gen_call(prev=None):
+        if prev is not None and rng.chance(1, 2):
+            call = dict(prev)
+            call["seed"] = rng.below(2 ** 32)
+            if rng.chance(1, 2):
+                call["mode"] = rng.weighted(MODES_PLENTY)
+            return call
+        nr = rng.weighted([(8, 1), (20, 2), (40, 3), (70, 2), (100, 1)])
+        cand = [u for u in range(nu) if u != dense_row] if dense_row is not None and nu > 1 and rng.chance(2, 3) else list(range(nu))
+        rows = [rng.choice(cand) for _ in range(nr)]
+        return {"rows": rows, "weighting": rng.weighted([("uniform", 5), ("popular", 2), ("popularity", 2)]),
+                "n": rng.weighted([(None, 5), (1, 1), (2, 2), (3, 1)]), "att": rng.weighted(budgets), "verify": not rng.chance(1, 12),
+                "mode": rng.weighted(MODES_PLENTY), "seed": rng.below(2 ** 32), "bias": rng.weighted([(0, 1), (2, 1), (3, 1)])}
+
+    calls = [gen_call()]
+    for _ in range(rng.weighted([(0, 3), (1, 3), (2, 1)])):
+        calls.append(gen_call(calls[-1]))
+    return {"n_users": nu, "n_items": ni, "pairs": pairs, "calls": calls, "style": "plentiful"}
+
+
 def gen_case(rng, malformed=False):
+    if not malformed and rng.chance(1, 8):
+        return gen_plentiful(rng)
     nu = rng.weighted([(0, 1), (1, 3), (2, 4), (3, 6), (4, 6), (5, 4), (7, 2)])
     ni = rng.weighted([(0, 1), (1, 4), (2, 5), (3, 6), (4, 6), (5, 4), (7, 2)])
     style = rng.weighted([("sparse", 3), ("mixed", 5), ("dense", 3), ("full", 1), ("empty", 1)])
@@ -74,6 +146,8 @@ def gen_case(rng, malformed=False):
             call = dict(prev)
             call["seed"] = rng.below(2 ** 32)
             if rng.chance(1, 3):
+                call["mode"] = rng.weighted(MODES_SMALL)
+            if rng.chance(1, 3):
                 call["att"] = rng.weighted([(-1, 1), (0, 3), (1, 4), (2, 3)])
             if rng.chance(1, 4):
                 call["n"] = rng.weighted([(None, 3), (1, 1), (2, 2)])
@@ -87,7 +161,7 @@ def gen_case(rng, malformed=False):
         return {"rows": rows, "weighting": rng.weighted([("uniform", 5), ("popular", 3), ("popularity", 2)]),
                 "n": rng.weighted([(None, 5), (0, 1), (1, 2), (2, 3), (3, 2), (4, 1)]),
                 "att": rng.weighted([(-1, 1), (0, 3), (1, 4), (2, 4), (3, 3), (5, 2)]),
-                "verify": not rng.chance(1, 8), "mode": rng.weighted([("pcg", 2), ("scripted", 3)]),
+                "verify": not rng.chance(1, 8), "mode": rng.weighted(MODES_SMALL),
                 "seed": rng.below(2 ** 32), "bias": rng.weighted([(0, 3), (1, 1), (2, 3), (3, 2)])}
 
     calls = [gen_call()]
@@ -120,7 +194,7 @@ _ready = False
 
 
 def _setup():
-    global _ready, np, pd, DatasetBuilder, DataWarning, Recording, Scripted
+    global _ready, np, pd, DatasetBuilder, DataWarning, Recording, Scripted, set_global_rng
     if _ready:
         return
     common.use_repo()
@@ -128,6 +202,7 @@ def _setup():
     import pandas as pd
     from lenskit.data import DatasetBuilder
     from lenskit.diagnostics import DataWarning
+    from lenskit.random import set_global_rng
 
     class Recording(np.random.Generator):
         "the real PCG64 stream, with every choice() recorded"
@@ -186,17 +261,73 @@ def build_matrix(case):
     return dsb.build().interactions().matrix()
 
 
-def run_call(m, call):
+_NOTHING = object()
+
+
+def make_rng(call):
+    """the rng= argument in the form the call asks for -> (argument, recorder or None).  Every form is one that
+    lenskit.random.random_generator documents (RNGInput: seed, SeedSequence, sequence of ints, Generator, BitGenerator, None)."""
+    mode, seed = call["mode"], call["seed"]
+    if mode == "pcg":
+        g = Recording(seed)
+        return g, g
+    if mode == "scripted":
+        g = Scripted(seed, call["bias"])
+        return g, g
+    if mode == "int":
+        return seed, None
+    if mode == "seedseq":
+        return np.random.SeedSequence(seed), None
+    if mode == "intlist":
+        return [seed & 0xFFFF, (seed >> 16) & 0xFFFF, 7], None
+    if mode == "generator":
+        return np.random.default_rng(seed), None
+    if mode == "bitgen":
+        return np.random.PCG64(seed), None
+    if mode == "none-global":          # rng=None after lenskit.random.set_global_rng(seed)
+        set_global_rng(seed)
+        return None, None
+    if mode == "none-global-rec":      # the global generator is a recording one (default_rng returns a Generator unaltered)
+        g = Recording(seed)
+        set_global_rng(g)
+        return None, g
+    raise ValueError(mode)
+
+
+def one_call(m, call):
     import warnings
 
+    import lenskit.random as lr
+
     obs = {}
-    g = Recording(call["seed"]) if call["mode"] == "pcg" else Scripted(call["seed"], call["bias"])
+    saved = getattr(lr, "_global_rng", _NOTHING) if call["mode"].startswith("none-global") else _NOTHING
+    try:
+        arg, g = make_rng(call)
+        obs = _invoke(m, call, arg, g, warnings)
+    finally:
+        if saved is not _NOTHING:      # leave the process as we found it (no global generator)
+            setattr(lr, "_global_rng", saved)
+    return obs
+
+
+def run_call(m, call):
+    obs = one_call(m, call)
+    if call["mode"] in REPEATABLE:
+        # the same request with an equal, freshly made seed / generator: must give the same answer
+        again = one_call(m, call)
+        obs["again"] = {k: again.get(k) for k in ("error", "cols", "warnings")}
+    return obs
+
+
+def _invoke(m, call, arg, g, warnings):
+    obs = {}
     rows = np.array(call["rows"], dtype=np.int32)
+    log = (lambda: g.log) if g is not None else (lambda: [])
     with warnings.catch_warnings(record=True) as wl:
         warnings.simplefilter("always")
         try:
             out = m.sample_negatives(rows, weighting=call["weighting"], n=call["n"], verify=call["verify"],
-                                     max_attempts=call["att"], rng=g)
+                                     max_attempts=call["att"], rng=arg)
             obs["error"] = 0
         except ValueError as e:
             obs["error"], obs["msg"] = 1, str(e)[:80]
@@ -204,7 +335,7 @@ def run_call(m, call):
             obs["error"], obs["msg"] = 3, "RecursionError"
         except Exception as e:  # anything else is outside the contract
             obs["error"], obs["msg"] = 2, f"{type(e).__name__}: {e}"[:120]
-    obs["draws"] = [[a, v] for a, v in (g.log[:40] if obs["error"] in (2, 3) else g.log)]
+    obs["draws"] = [[a, v] for a, v in (log()[:40] if obs["error"] in (2, 3) else log())]
     obs["warnings"] = []
     obs["other_warnings"] = []
     for w in wl:
@@ -244,10 +375,11 @@ W = {"uniform": "Uniform", "popular": "Popular", "popularity": "Popular"}
 def call_term(case, call, obs):
     if call["weighting"] not in W:
         return None      # name rejected before anything is drawn: oracle only
+    if call["mode"] not in RECORDED:
+        return None      # seed-form / plain generator: the draws cannot be recorded; judged by the oracle alone
     if obs["error"] in (2, 3) or (obs["error"] == 0 and obs["cols"] is None):
         return "false"
-    pairs = sorted((p[0], p[1]) for p in case["pairs"])
-    m = f"{{| m_ncols := {cz(case['n_items'])}; m_pairs := {clist(pairs, lambda p: f'({cz(p[0])}, {cz(p[1])})')} |}}"
+    m = "m"
     ds = [v for _, vs in obs["draws"] for v in vs]
     n = "None" if call["n"] is None else f"(Some {cnat(call['n'])})"
     if obs["error"]:
@@ -263,7 +395,9 @@ def coq_term(case, obs):
     terms = [t for t in (call_term(case, c, o) for c, o in zip(calls_of(case), obs["calls"])) if t is not None]
     if not terms:
         return None
-    return "(" + ")\n  && (".join(terms) + ")"
+    pairs = sorted((p[0], p[1]) for p in case["pairs"])
+    m = f"{{| m_ncols := {cz(case['n_items'])}; m_pairs := {clist(pairs, lambda p: f'({cz(p[0])}, {cz(p[1])})')} |}}"
+    return f"(let m := {m} in\n  (" + ")\n  && (".join(terms) + "))"
 
 
 # ---------------------------------------------------------------------------------------------
@@ -271,13 +405,57 @@ def coq_term(case, obs):
 # ---------------------------------------------------------------------------------------------
 
 
+def rng_text(c):
+    mode, seed = c["mode"], c["seed"]
+    return {"pcg": f"<recording Generator(PCG64({seed}))>", "scripted": f"<scripted Generator {seed} bias {c.get('bias')}>",
+            "int": f"{seed}", "seedseq": f"np.random.SeedSequence({seed})",
+            "intlist": f"{[seed & 0xFFFF, (seed >> 16) & 0xFFFF, 7]}", "generator": f"np.random.default_rng({seed})",
+            "bitgen": f"np.random.PCG64({seed})", "none-global": f"None after lenskit.random.set_global_rng({seed})",
+            "none-global-rec": f"None after lenskit.random.set_global_rng(<recording Generator(PCG64({seed}))>)"}[mode]
+
+
 def describe(calls, k):
     def one(c):
         return (f"sample_negatives(rows={c['rows']}, weighting={c['weighting']!r}, n={c['n']}, verify={c['verify']}, "
-                f"max_attempts={c['att']}, rng=<{c['mode']} {c['seed']}>)")
+                f"max_attempts={c['att']}, rng={rng_text(c)})")
     if k == 0:
         return "call #0 " + one(calls[0])
     return f"call #{k} " + one(calls[k]) + " on the same matrix object after " + "; ".join(f"#{j} " + one(calls[j]) for j in range(k))
+
+
+def hit_probabilities(case, call, observed):
+    """per requested row: (fraction of columns unobserved, probability that ONE draw of this weighting lands on an observed
+    column of the row) -- from the input data only.  uniform: k_r / n_cols; popularity: sum of occurrences of the row's
+    columns / number of records."""
+    ni, nnz = case["n_items"], len(observed)
+    by_row, popc = {}, {}
+    for r, c in observed:
+        by_row.setdefault(r, []).append(c)
+        popc[c] = popc.get(c, 0) + 1
+    out = {}
+    for r in set(call["rows"]):
+        cols = by_row.get(r, [])
+        free = Fraction(ni - len(cols), max(ni, 1))
+        p = Fraction(len(cols), max(ni, 1)) if call["weighting"] == "uniform" else Fraction(sum(popc[c] for c in cols), max(nnz, 1))
+        out[r] = (free, p)
+    return out
+
+
+def plentiful_judgement(case, call, observed):
+    """{row: bound on P(some cell of the row stays observed)} for the plentiful rows of the call, and the bound for the whole
+    call if ALL its rows are plentiful (else None).  A row is plentiful when at least half of the columns are unobserved for
+    it and a draw misses its observed columns with probability >= 1/2."""
+    att = max(call["att"], 0)
+    ncol = 1 if call["n"] is None else call["n"]
+    hp = hit_probabilities(case, call, observed)
+    rows, total, everyone = {}, Fraction(0), True
+    for r, (free, p) in hp.items():
+        if free >= Fraction(1, 2) and p <= Fraction(1, 2):
+            rows[r] = call["rows"].count(r) * ncol * p ** (att + 1)
+            total += rows[r]
+        else:
+            everyone = False
+    return rows, (total if everyone else None)
 
 
 def call_oracle(case, calls, k, obs, observed):
@@ -321,6 +499,28 @@ def call_oracle(case, calls, k, obs, observed):
                       f"a DataWarning reported missing negatives but every returned cell is a true negative: {where}"))
     elif obs["warnings"]:
         v.append(("warning-unverified" + later, f"a verification warning was raised with verify=False: {where}"))
+    if call["verify"] and call["mode"] in HONEST and cells > 0:
+        # "rows for which unobserved columns are plentiful receive true negatives without any warning", quantified
+        prow, ptotal = plentiful_judgement(case, call, observed)
+        for r, c in bad_cells:
+            if r in prow and prow[r] <= PLENTY_EPS:
+                free = case["n_items"] - sum(1 for rr, _ in observed if rr == r)
+                v.append(("plentiful-row-observed-cell" + later,
+                          f"row {r} has {free} of {case['n_items']} columns unobserved, yet column {c}, an observed interaction of it, was "
+                          f"returned (probability of that under an ideal source <= {float(prow[r]):.3g}): {where}"))
+                break
+        if obs["warnings"] and ptotal is not None and ptotal <= PLENTY_EPS:
+            v.append(("plentiful-rows-warned" + later,
+                      f"every requested row has at least half of the columns unobserved and the retry budget makes a failure "
+                      f"practically impossible (probability <= {float(ptotal):.3g} under an ideal source), yet a DataWarning "
+                      f"'failed to find verified negatives for {obs['warnings']} users' was raised: {where}"))
+    if "again" in obs:
+        a = obs["again"]
+        if (a["error"], a.get("cols"), a["warnings"]) != (obs["error"], obs.get("cols"), obs["warnings"]):
+            v.append(("seed-not-reproducible" + later,
+                      f"the same request with an equal rng= argument gave another answer (second: error={a['error']} "
+                      f"warnings={a['warnings']} columns={str(a.get('cols'))[:80]}; first: warnings={obs['warnings']} "
+                      f"columns={str(obs.get('cols'))[:80]}): {where}"))
     return v
 
 
@@ -346,7 +546,11 @@ def call_nontrivial(case, call, obs, observed):
         return False
     cells = len(call["rows"]) * (1 if call["n"] is None else call["n"])
     ndraws = sum(len(vs) for _, vs in obs["draws"])
-    mixed = any(0 < sum(1 for i in range(case["n_items"]) if (r, i) in observed) < case["n_items"] for r in call["rows"])
+    mixed = any(0 < sum(1 for i in range(case["n_items"]) if (r, i) in observed) < case["n_items"] for r in set(call["rows"]))
+    if call["mode"] not in RECORDED:
+        # draws are invisible: the call counts when the quantified plentiful clause was actually judged on a mixed row
+        prow, _ = plentiful_judgement(case, call, observed)
+        return mixed and cells > 0 and any(0 < q <= PLENTY_EPS for q in prow.values())
     return ndraws > cells and mixed
 
 
@@ -365,7 +569,7 @@ def counters(case, obs):
         yield "weighting=" + str(call["weighting"])
         yield "n=" + str(call["n"])
         yield "att=" + str(call["att"])
-        yield "mode=" + call["mode"]
+        yield "rng-form=" + call["mode"]
         yield "verify=" + str(call["verify"])
         yield f"error={o['error']}"
         yield "rows=" + str(min(len(call["rows"]), 8))
@@ -376,6 +580,14 @@ def counters(case, obs):
                 yield "has-fully-dense-requested-row"
             if len(set(call["rows"])) < len(call["rows"]):
                 yield "repeated-rows"
+            if call["verify"] and call["mode"] in HONEST and call["weighting"] in W and call["rows"]:
+                prow, ptotal = plentiful_judgement(case, call, observed)
+                if any(0 < q <= PLENTY_EPS for q in prow.values()):
+                    yield "plentiful-clause-judged(row)" + ("" if call["mode"] in RECORDED else "/seed-form")
+                if ptotal is not None and 0 < ptotal <= PLENTY_EPS:
+                    yield "plentiful-clause-judged(call)" + ("" if call["mode"] in RECORDED else "/seed-form")
+            if "again" in o:
+                yield "reproducibility-compared"
             if o["warnings"]:
                 nwarned += 1
                 if nwarned > 1:
@@ -387,7 +599,13 @@ def sample(case, obs):
     return {"case": case, "observation": [{k: o.get(k) for k in ("error", "shape", "cols", "warnings", "draws")} for o in obs["calls"]]}
 
 
+_shrunk = [0]
+
+
 def shrink(case, fails):
+    _shrunk[0] += 1
+    if _shrunk[0] > 5:          # cost cap: at most five failing keys are minimised per run
+        return case
     c = dict(case)
     if "calls" in case:
         c["calls"] = common.shrink_list(case["calls"], lambda xs: bool(xs) and fails({**c, "calls": xs}), 20)
@@ -396,8 +614,8 @@ def shrink(case, fails):
                 calls = list(c["calls"])
                 calls[k] = {**calls[k], "rows": rows}
                 return {**c, "calls": calls}
-            c = with_rows(common.shrink_list(c["calls"][k]["rows"], lambda xs: fails(with_rows(xs)), 20))
+            c = with_rows(common.shrink_list(c["calls"][k]["rows"], lambda xs: fails(with_rows(xs)), 60))
     else:
         c["rows"] = common.shrink_list(case["rows"], lambda xs: fails({**c, "rows": xs}), 30)
-    c["pairs"] = common.shrink_list(c["pairs"], lambda xs: fails({**c, "pairs": xs}), 40)
+    c["pairs"] = common.shrink_list(c["pairs"], lambda xs: fails({**c, "pairs": xs}), 60)
     return c
